@@ -205,6 +205,22 @@ Proof.
   - apply cubic_eqb_ok, Z1_eqb_ok.
 Qed.
 
+(* any further quadratic / cubic level over dictionaries that stand for each other *)
+Theorem BQ_stands_for : forall {T U} (B : Fops T) (G : Fops U) nr,
+  stands_for B G -> stands_for (BQ B nr) (BQ G nr).
+Proof.
+  intros T U B G nr [[R H] E]. split.
+  - exists (R2 R). apply quad_rel; [exact H | apply (r_of _ _ _ H)].
+  - apply quad_eqb_ok, E.
+Qed.
+Theorem BC_stands_for : forall {T U} (B : Fops T) (G : Fops U) nr,
+  stands_for B G -> stands_for (BC B nr) (BC G nr).
+Proof.
+  intros T U B G nr [[R H] E]. split.
+  - exists (R3 R). apply cubic_rel; [exact H | apply (r_of _ _ _ H)].
+  - apply cubic_eqb_ok, E.
+Qed.
+
 (* ------------------------------------------------------------------ Part B': every generic
    checker computes the same boolean on related dictionaries *)
 
@@ -255,6 +271,10 @@ Section Transfer.
     intros. unfold swu_exceptional_ok. f_equal. apply (r_eqb _ _ _ H); [|apply (r_1 _ _ _ H)].
     apply fpow_rel. rel H; apply el_rel.
   Qed.
+  Lemma fft_root_ok_tr : forall root s, fft_root_ok F root s = fft_root_ok G root s.
+  Proof. intros. unfold fft_root_ok. rewrite !pow_is_tr. reflexivity. Qed.
+  Lemma fft_large_ok_tr : forall w s b k, fft_large_ok F w s b k = fft_large_ok G w s b k.
+  Proof. intros. unfold fft_large_ok. rewrite !pow_is_tr, !pow_isnt_tr. reflexivity. Qed.
   Lemma tower_sq_tr : forall a, tower_sq F a = tower_sq G a.
   Proof. intros. unfold tower_sq. apply (r_coords _ _ _ H). rel H; apply el_rel. Qed.
   Lemma tower_cube_tr : forall a, tower_cube F a = tower_cube G a.
@@ -603,6 +623,23 @@ Qed.
 Theorem ate_loop_mod_spec : forall l p r, ate_loop_mod_ok l p r = true -> 0 < l /\ 0 < r /\ (l - p) mod r = 0.
 Proof. intros l p r H. unfold ate_loop_mod_ok in H. andb_split H. zify_b. repeat split; assumption. Qed.
 
+Lemma lists_eqb_eq : forall a b, lists_eqb a b = true -> a = b.
+Proof.
+  induction a as [| x a IH]; intros [| y b] H; unfold lists_eqb in H; cbn [length combine forallb Nat.eqb fst snd] in H;
+    try discriminate; [reflexivity|].
+  andb_split H. andb_split Hc. zify_b. subst. f_equal. apply IH. unfold lists_eqb. rewrite H, Hc0. reflexivity.
+Qed.
+Theorem embeds_ok_spec : forall x c deg, embeds_ok x c deg = true -> x = c :: repeat 0 (Z.to_nat deg - 1).
+Proof. intros x c deg H. apply lists_eqb_eq. exact H. Qed.
+Theorem opt_embeds_ok_spec : forall o c deg, opt_embeds_ok o c deg = true ->
+  (o = [] /\ c = []) \/ (exists v, c = [v] /\ o = [v :: repeat 0 (Z.to_nat deg - 1)]).
+Proof.
+  intros o c deg H. unfold opt_embeds_ok in H.
+  destruct o as [| w [| ? ?]], c as [| v [| ? ?]]; try discriminate.
+  - left. split; reflexivity.
+  - right. exists v. split; [reflexivity|]. apply embeds_ok_spec in H. subst. reflexivity.
+Qed.
+
 Theorem naf_ok_spec : forall l, naf_ok l = true -> Forall (fun d => -1 <= d <= 1) l.
 Proof.
   intros l H. unfold naf_ok in H. apply Forall_forall. intros d Hd. rewrite forallb_forall in H.
@@ -643,6 +680,25 @@ Section FieldSpecs.
   Proof.
     destruct SF as [[R H] E]. intros a b e c Hb. rewrite (mul_pow_is_tr R B G H) in Hb. unfold mul_pow_is in Hb.
     andb_split Hb. zify_b. split; [assumption | apply E; assumption].
+  Qed.
+  Theorem fft_root_ok_spec : forall root s, fft_root_ok B root s = true ->
+    0 < s /\ fpow G (el G root) (2 ^ s) = el G [1] /\ fpow G (el G root) (2 ^ (s - 1)) = el G [-1].
+  Proof.
+    intros root s Hb. unfold fft_root_ok in Hb.
+    apply andb_true_iff in Hb as [Hb H3]. apply andb_true_iff in Hb as [H1 H2].
+    apply Z.ltb_lt in H1. apply pow_is_spec in H2, H3. repeat split; [assumption | apply H2 | apply H3].
+  Qed.
+  Theorem fft_large_ok_spec : forall w s b k, fft_large_ok B w s b k = true ->
+    let n := 2 ^ s * b ^ k in
+    0 < s /\ 1 < b /\ 0 < k /\ fpow G (el G w) n = el G [1] /\
+    fpow G (el G w) (n / 2) <> el G [1] /\ fpow G (el G w) (n / b) <> el G [1].
+  Proof.
+    intros w s b k Hb n. unfold fft_large_ok in Hb. fold n in Hb.
+    apply andb_true_iff in Hb as [Hb H6]. apply andb_true_iff in Hb as [Hb H5].
+    apply andb_true_iff in Hb as [Hb H4]. apply andb_true_iff in Hb as [Hb H3].
+    apply andb_true_iff in Hb as [H1 H2].
+    apply Z.ltb_lt in H1, H2, H3. apply pow_is_spec in H4. apply pow_isnt_spec in H5, H6.
+    repeat split; try assumption; [apply H4 | apply H5 | apply H6].
   Qed.
   Theorem swu_exceptional_ok_spec : forall q a b z, swu_exceptional_ok B q a b z = true ->
     let x := fmul G (el G b) (finv G (fmul G (el G z) (el G a))) in
